@@ -151,16 +151,19 @@ def _cwd():
         return None
 
 
-def open_backend(backend, root, name='arch', cached=False):
+def open_backend(backend, root, name='arch', cached=False, seed=None):
+    """seed: initial contents passed to the public constructor as dict=... (merged into what the store holds)"""
     if backend in RELNAME and _cwd() != os.path.realpath(root):
         cwd = _cwd() or os.path.dirname(root)
         os.chdir(root)
         try:
-            return open_backend(backend, root, name, cached)
+            return open_backend(backend, root, name, cached, seed)
         finally:
             os.chdir(cwd)
     import klepto.archives as ka
     fam, enc, kw = BACKENDS[backend]
+    if seed is not None:
+        kw = dict(kw, dict=dict(seed))
     loc = location(backend, root, name)
     if fam == 'mem':
         return ka.dict_archive(loc, cached=cached)
@@ -320,7 +323,18 @@ def model_apply(m, op, backend, other_m=None):
         if k == 'clear':
             m.clear()
             return ('ret', None)
-        if k in ('copy', 'copyname', 'eq_same', 'eq_diff', 'ne_same', 'ne_diff', 'reopen', 'mutate'):
+        if k in ('pop_toomany', 'setdefault_toomany'):
+            return ('exc', 'TypeError')        # dict.pop / dict.setdefault take at most two arguments
+        if k == 'repr':
+            if any(isinstance(v, Unencodable) for v in m.values()):
+                return ('exc', 'ANY')          # a dict's repr fails, too, when a contained object's repr fails
+            return ('ret', 'REPR')
+        if k == 'eq_foreign':
+            return ('ret', (False, True))
+        if k == 'popkeys_scalar':
+            # a single non-iterable key instead of a list of keys: pop(key[, default])
+            return ('ret', m.pop(*op[1:]))
+        if k in ('copy', 'copyname', 'eq_same', 'eq_diff', 'ne_same', 'ne_diff', 'reopen', 'reopen_seed', 'mutate'):
             return ('ret', None)
     except KeyError:
         return ('exc', 'KeyError')
@@ -376,6 +390,17 @@ def impl_apply(a, op):
         if k == 'clear':
             a.clear()
             return ('ret', None)
+        if k == 'pop_toomany':
+            return ('ret', a.pop(op[1], 'd1', 'd2'))
+        if k == 'setdefault_toomany':
+            return ('ret', a.setdefault(op[1], 'd1', 'd2'))
+        if k == 'repr':
+            r = repr(a)
+            return ('ret', 'REPR' if isinstance(r, str) and r else r)
+        if k == 'eq_foreign':
+            return ('ret', (a == 5, a != 5))
+        if k == 'popkeys_scalar':
+            return ('ret', a.popkeys(*op[1:]))
     except KeyError as e:
         return ('exc', 'KeyError', e)
     except BaseException as e:
